@@ -1,5 +1,6 @@
 import Pyxv.Model.Json
 import Pyxv.Model.Choices
+import Pyxv.Model.ChoicesSpec
 /-! Driver operations for the choices slice (C09). -/
 namespace Pyxv.Choices
 open Lean Pyxv Pyxv.Rows
@@ -57,11 +58,65 @@ def outcomeToJson : Outcome → Json
       ("csv_text", optJ o.csv),
       ("csv", match o.csv with | some t => gridToJson (parseCsv t) | none => Json.null)]
 
+/-! decoding an observed XForm (harness/c09obs.py) -/
+
+def optStrJ (j : Json) : Option Str := match j with | .str s => some s.toList | _ => none
+
+def gridOfJson (j : Json) : Except String (List (List Str)) := do
+  let a ← j.getArr?
+  a.toList.mapM strList
+
+def obsInstOfJson (j : Json) : Except String Spec.ObsInst := do
+  let id := (optStr j "id").getD []
+  let items ← match j.getObjVal? "items" with
+    | .ok (.arr a) => (do let r ← a.toList.mapM pairList; pure (some r))
+    | _ => pure none
+  pure { id, src := optStr j "src", items }
+
+def obsSelOfJson (j : Json) : Except String Spec.ObsSel := do
+  let itemset : Option ItemsetOut := match j.getObjVal? "itemset" with
+    | .ok (.obj o) =>
+      let jj := Json.obj o
+      some { nodeset := (optStr jj "nodeset").getD [], value := (optStr jj "value").getD [], label := (optStr jj "label").getD [] }
+    | _ => none
+  let items ← (← getArr j "items").toList.mapM fun it => do
+    let p ← it.getArr?
+    if h : p.size = 2 then
+      let lab ← p[0].getArr?
+      let isRef := match lab[0]? with | some (.str "ref") => true | _ => false
+      let l := match lab[1]? with | some (.str s) => s.toList | _ => []
+      let v := (optStrJ p[1]).getD []
+      pure ((isRef, l), v)
+    else throw "item pair expected"
+  let other : Option (Str × Str × Str) := match j.getObjVal? "other" with
+    | .ok (.obj o) =>
+      let jj := Json.obj o
+      some ((optStr jj "relevant").getD [], (optStr jj "type").getD [], (optStr jj "input").getD [])
+    | _ => none
+  pure { ref := (optStr j "ref").getD [], itemset, items, query := optStr j "query", other }
+
+def obsOfJson (j : Json) : Except String Spec.ObsIn := do
+  let instances ← (← getArr j "instances").toList.mapM obsInstOfJson
+  let selects ← (← getArr j "selects").toList.mapM obsSelOfJson
+  let csv ← match j.getObjVal? "csv" with
+    | .ok (.arr a) => (do let g ← gridOfJson (.arr a); pure (some g))
+    | _ => pure none
+  pure { instances, selects, csv }
+
+def failToJson (f : Spec.Fail) : Json :=
+  Json.mkObj [("kind", Json.str f.kind), ("detail", jstr f.detail), ("site", Json.str f.site)]
+
 def opsChoices (op : String) (j : Json) : Option (Except String Json) :=
   match op with
   | "choices.model" => some do
       let inp ← inputOfJson j
       pure (outcomeToJson (run inp))
+  | "choices.holds" => some do
+      let inp ← inputOfJson j
+      let obs ← obsOfJson (← j.getObjVal? "obs")
+      match Spec.holds inp obs with
+      | .error w => pure (Json.mkObj [("skipped", Json.str w)])
+      | .ok fs => pure (Json.mkObj [("failures", Json.arr (fs.map failToJson).toArray)])
   | "choices.csv" => some do
       let header ← getStrList j "header"
       let rows ← cellsListOfJson (← j.getObjVal? "rows")
